@@ -41,6 +41,7 @@ use std::panic::{catch_unwind, AssertUnwindSafe};
 use vcommon::*;
 
 const VERSIONS: [u32; 4] = [1, 2, 3, 1000];
+const V4MAPPED: &str = "V4MAPPED:";
 
 fn main() {
 	quiet_panics();
@@ -663,6 +664,11 @@ where
 			}
 			ctx.checks += 1;
 			if let Some(d) = eq(x, &y, ver, env) {
+				if d.starts_with(V4MAPPED) {
+					// the differing re-encodings are consequences of this one normalisation: reported once
+					ctx.bad("value", "v4_mapped_to_v4", d[V4MAPPED.len()..].to_string());
+					return;
+				}
 				ctx.bad("value", "", d);
 			}
 			ctx.checks += 1;
@@ -1030,7 +1036,24 @@ fn run_case(case: &Value, seed: u64, inst: u64) -> (u64, Vec<Value>) {
 		}
 		"PeerAddr" => {
 			let x = b_addr(e, v);
-			check(c, e, &x, |a: &PeerAddr, b: &PeerAddr, _, _| if a.0 == b.0 { None } else { Some(format!("decoded {} expected {}", b.0, a.0)) }, no_hash());
+			check(
+				c,
+				e,
+				&x,
+				|a: &PeerAddr, b: &PeerAddr, _, _| {
+					if a.0 == b.0 {
+						return None;
+					}
+					// precisely: V6 [::ffff:a.b.c.d]:p decoded as V4 a.b.c.d:p (reported under its own class)
+					if let (SocketAddr::V6(x6), SocketAddr::V4(y4)) = (a.0, b.0) {
+						if x6.ip().to_ipv4_mapped() == Some(*y4.ip()) && x6.port() == y4.port() {
+							return Some(format!("{}decoded {} expected {}", V4MAPPED, b.0, a.0));
+						}
+					}
+					Some(format!("decoded {} expected {}", b.0, a.0))
+				},
+				no_hash(),
+			);
 		}
 		"PeerAddrs" => {
 			let x = PeerAddrs {
